@@ -218,7 +218,7 @@ fn fam_multi(ctx: &CaseCtx, cov: &mut Cov) -> CaseOut {
     let f1 = s1.serialize().0;
     let f2 = s2.serialize().0;
     let (feature, file, what, plain) = if ctx.index % 2 == 0 {
-        let pad = if rng.chance(1, 2) { 4 * rng.range(0, 8) as usize } else { 0 };
+        let pad = if rng.chance(1, 2) { 4 * *rng.pick(&[0u64, 1, 2, 3, 7, 8, 16, 64, 256, 2048]) as usize } else { 0 };
         let mut f = f1.clone();
         f.extend(std::iter::repeat(0u8).take(pad));
         f.extend_from_slice(&f2);
@@ -226,7 +226,7 @@ fn fam_multi(ctx: &CaseCtx, cov: &mut Cov) -> CaseOut {
         p.extend_from_slice(&s2.plain());
         (7, f, format!("[{}] + {} padding bytes + [{}]", d1, pad, d2), p)
     } else {
-        let pad = 4 * rng.range(1, 16) as usize;
+        let pad = 4 * *rng.pick(&[1u64, 2, 3, 4, 8, 15, 16, 17, 32, 64, 128, 256, 1024, 2048, 4096]) as usize;
         let mut f = f1.clone();
         f.extend(std::iter::repeat(0u8).take(pad));
         (8, f, format!("[{}] + {} zero bytes", d1, pad), s1.plain())
@@ -236,6 +236,67 @@ fn fam_multi(ctx: &CaseCtx, cov: &mut Cov) -> CaseOut {
         out.harness_error(format!("liblzma (concatenated mode) does not accept the generated file (ret {})", d.ret));
         return out;
     }
+    must_refuse(&mut out, cov, feature, &what, &file, &mut rng);
+    out.sample = Some(J::obj().set("what", J::s(what)).set("file_len", J::i(file.len())));
+    out
+}
+
+/// the unsupported feature sits in a LATER block of a multi-block file (the blocks
+/// before it are perfectly fine and must not be reported as a success)
+fn fam_later_block(ctx: &CaseCtx, cov: &mut Cov) -> CaseOut {
+    let mut out = CaseOut::default();
+    let mut rng = ctx.rng();
+    let check = *rng.pick(&[0u8, 1, 4]);
+    let nb = rng.range(2, 5) as usize;
+    let mut blocks = valid_blocks(&mut rng, check, nb);
+    let bi = rng.range(1, nb as u64 - 1) as usize;
+    let kind = ctx.index % 3;
+    let what;
+    let feature;
+    match kind {
+        0 => {
+            // a foreign filter (chain) in block bi
+            let id: u64 = *rng.pick(&[0x03u64, 0x04, 0x05, 0x06, 0x07, 0x08, 0x09, 0x0A, 0x20, 0x22, 0x4000_0000_0000_0001]);
+            let b = &blocks[bi];
+            let lz = FilterSpec { id: 0x21, props: vec![xz::lzma2_dict_prop_for(b.plain.len() as u64)] };
+            let foreign = FilterSpec { id, props: if id == 0x03 { vec![rng.byte()] } else { vec![] } };
+            let chain = match rng.below(4) {
+                0 => vec![foreign],
+                1 => vec![foreign, lz],
+                2 => vec![foreign.clone(), foreign, lz],
+                _ => vec![FilterSpec { id: 0x03, props: vec![0] }, foreign.clone(), foreign, lz],
+            };
+            let n = chain.len();
+            let bo = BlockOpts { with_packed: b.packed_size.is_some(), with_unpacked: b.unpacked_size.is_some(), extra_header_words: 0, dict_prop: 0 };
+            blocks[bi] = BlockSpec::with_filters(b.data.clone(), b.plain.clone(), check, &bo, chain);
+            what = format!("block {} of {} uses a chain of {} filters with id {:#x}", bi, nb, n, id);
+            feature = if id == 0x03 { 2 } else if (0x04..=0x0A).contains(&id) { 3 } else { 4 };
+        }
+        1 => {
+            let bit = [0x04u8, 0x08, 0x10, 0x20][rng.usize_below(4)];
+            blocks[bi].flags |= bit;
+            what = format!("block {} of {}: flags |= {:#04x}", bi, nb, bit);
+            feature = 5;
+        }
+        _ => {
+            // SHA-256 file whose LAST block is empty (nothing to hash there)
+            let mut bl = valid_blocks(&mut rng, 10, nb);
+            let last = bl.len() - 1;
+            bl[last] = BlockSpec::new(vec![0], vec![], 10, &BlockOpts::default());
+            let spec = XzSpec::new(10, bl);
+            let (file, _) = spec.serialize();
+            let d = ll::xz_decode_ignore_check(&file);
+            if !(d.ok() && d.out == spec.plain()) {
+                out.harness_error("liblzma does not accept the generated SHA-256 file");
+                return out;
+            }
+            must_refuse(&mut out, cov, 0, &format!("SHA-256 file with {} blocks, the last one empty", nb), &file, &mut rng);
+            return out;
+        }
+    }
+    let spec = XzSpec::new(check, blocks);
+    let (file, _) = spec.serialize();
+    cov.name("unsupported_feature_in_a_later_block", 1);
     must_refuse(&mut out, cov, feature, &what, &file, &mut rng);
     out.sample = Some(J::obj().set("what", J::s(what)).set("file_len", J::i(file.len())));
     out
@@ -264,7 +325,7 @@ pub fn monitor(tier: Tier) -> Monitor {
     Monitor {
         id: "C18",
         level: "exploration",
-        rule: "cases = well-formed files using one feature outside the supported subset: each of the 16 check IDs x 0-3 blocks (digest correct for SHA-256), delta / six BCJ filters + LZMA2 written by liblzma, unknown filter IDs, each reserved bit of block flags and stream flags (header = footer, CRCs repaired), two concatenated streams with optional padding, stream padding of 4-60 bytes; liblzma confirms well-formedness where it can; expected Err; distinct by hash of the file",
+        rule: "cases = well-formed files using one feature outside the supported subset: each of the 16 check IDs x 0-3 blocks (digest correct for SHA-256), delta / six BCJ filters + LZMA2 written by liblzma, unknown filter IDs, each reserved bit of block flags and stream flags (header = footer, CRCs repaired), two concatenated streams with 0-8192 padding bytes, stream padding of 4-16384 bytes, the unsupported feature placed in a LATER block of a multi-block file (foreign filter chains of 1-4 filters, reserved block-flag bits, a SHA-256 file whose last block is empty); liblzma confirms well-formedness where it can; expected Err; distinct by hash of the file",
         assumptions: vec![
             "a SHA-256 file with zero blocks has nothing to verify: either verdict accepted there, success must deliver nothing (counted as lenient.sha256_zero_blocks)".into(),
             "unknown filter IDs cannot be confirmed by liblzma (it refuses them too)".into(),
@@ -273,6 +334,7 @@ pub fn monitor(tier: Tier) -> Monitor {
             Family { name: "check_ids", count: tier.pick(64 * 60, 64 * 2000), priority: true, enumerated: false, run: fam_checks },
             Family { name: "filters", count: tier.pick(6_000, 150_000), priority: false, enumerated: false, run: fam_filters },
             Family { name: "reserved_bits", count: tier.pick(15_000, 300_000), priority: false, enumerated: false, run: fam_reserved },
+            Family { name: "later_block", count: tier.pick(6_000, 120_000), priority: false, enumerated: false, run: fam_later_block },
             Family { name: "multi_stream", count: tier.pick(15_000, 300_000), priority: false, enumerated: false, run: fam_multi },
         ],
         label,
